@@ -171,6 +171,8 @@ class Gen(object):
         if r.kind == "commit":
             if rng.random() < min(0.8, 0.35 * max(self.err_scale, self.commit_scale / 2)):
                 return "commitDone %d err %s:%d" % (r.k, rng.choice(ERR_KINDS_COMMIT), self.next_tag())
+            if rng.random() < 0.06:
+                return "commitDone %d empty" % r.k  # a reply without an entry for the partition
             return "commitDone %d ok" % r.k
         raise AssertionError(r.kind)
 
@@ -182,12 +184,17 @@ class Gen(object):
         cands = []  # (weight, event)
         outstanding = [r for r in run.client.reqs.values() if not r.done]
         for r in outstanding:
-            # a request whose cancel was eaten completes later - only with a failure (client_iface.md)
+            # a request whose cancel was eaten completes later: a fetch/offset request also successfully (the client goes on
+            # resolving metadata and sends it after all); a coordinator-routed commit only with a failure (client_iface.md)
             if r.cancelled:
                 kind = {"fetch": "fetchDone", "offsets": "offsetDone", "offsetFetch": "offsetFetchDone", "commit": "commitDone"}[r.kind]
                 cands.append((4, "%s %d err kafka:%d" % (kind, r.k, self.next_tag())))
+                if r.kind != "commit":
+                    cands.append((4, self.reply_for(r)))
             else:
                 cands.append((6, self.reply_for(r)))
+        if getattr(run, "cleanupd", None) is not None and not run.cleanupd.called:
+            cands.append((5, "cleanupDone"))
         if run.procd is not None and not run.procd.called:
             cands.append((5, "procDone ok"))
             cands.append((1.5, "procDone err %s:%d" % (rng.choice(ERR_KINDS_PROC + ["cancelled"]), self.next_tag())))
